@@ -4,9 +4,10 @@ import json, sys
 pid = sys.argv[1]
 wt = sys.argv[2]
 wave2 = len(sys.argv) > 3 and sys.argv[3] == "wave2"
-wave3 = len(sys.argv) > 3 and sys.argv[3] in ("wave3", "wave4")
-wave4 = len(sys.argv) > 3 and sys.argv[3] == "wave4"
-out = "/tmp/seedout/%s%s" % (pid, "w2" if wave2 else "w4" if wave4 else "w3" if wave3 else "")
+wave3 = len(sys.argv) > 3 and sys.argv[3] in ("wave3", "wave4", "wave5")
+wave4 = len(sys.argv) > 3 and sys.argv[3] in ("wave4", "wave5")
+wave5 = len(sys.argv) > 3 and sys.argv[3] == "wave5"
+out = "/tmp/seedout/%s%s" % (pid, "w2" if wave2 else "w5" if wave5 else "w4" if wave4 else "w3" if wave3 else "")
 for l in open('/verif/properties.jsonl'):
     p = json.loads(l)
     if p['id'] == pid:
@@ -16,6 +17,8 @@ if wave3:
     extra = (" This is a third round on a tree that has recently had many repairs (`git log --grep '^fix:' --stat` lists them). Choose sites that earlier rounds are unlikely to have used: code that one of those repairs touched or introduced (a repaired branch, a new helper, a new clamp or bound - re-break it subtly or break its neighbour), or the handling of values held in a less common representation (epoch @N / %s, ISO week dates, ordinal dates, year-month-count-weekday, business-day-of-month, Lilian/Julian/Matlab day numbers) when a second operation or a second operand follows, or a difference between argument mode and stdin/stream mode, or state kept between two inputs, two durations, two formats or two options of one invocation. At least one of your two changes must need a multi-step sequence, a particular order/history, or an interaction of two options or two cooperating edits to manifest. Do NOT use `git stash` (it is shared between worktrees); revert with `git checkout -- .` only. If `make` starts re-running configure, run `./config.status --recheck && ./config.status` once, serially, then `make -j8`.")
 if wave4:
     extra = extra.replace('This is a third round', 'This is a FOURTH round (three rounds of such changes and two rounds of repairs came before; make yours different: prefer the tools\' own glue under src/ - main() and proc_line loops, option handling, dt-io.c, dt-io-zone.c, prchunk.c, alist.c, the expression parser - and the library parts touched least so far: getters dt_get_*, comparators, lib/ywd.c, lib/yd.c, lib/ymcw.c, lib/bizda.c, lib/daisy.c, lib/dt-core-tz-glue.c, lib/leaps.c, lib/dt-locale.c, lib/tzmap.c, lib/strops.c; a change may also sit in generated-table input such as lib/*.gperf or the leap-second list handling as long as the build regenerates it). It is a round')
+if wave5:
+    extra = extra.replace('This is a FOURTH round (three rounds', 'This is a FIFTH round (four rounds') + ' Keep it quick: about 20 minutes in all.'
 print(f"""You are given a scratch git worktree of the C project hroptatyr/dateutils at {wt} (already configured and built in-tree with autotools: run `make -j8` in it to rebuild, binaries are in {wt}/src, library sources in {wt}/lib, the test suite is `make -k check -j8` in {wt} and currently passes). Work ONLY inside {wt} (and {out} for your output); do not read or touch /verif or /repo.
 
 Here is a semantic property the software is supposed to satisfy:
